@@ -327,6 +327,7 @@ class Imaging(AbstractDataset):
             data=data,
             noise_map=noise_map,
             psf=self.psf,
+            use_normalized_psf=self.use_normalized_psf,
             noise_covariance_matrix=noise_covariance_matrix,
             over_sampling=self.over_sampling,
             pad_for_convolver=True,
@@ -419,6 +420,7 @@ class Imaging(AbstractDataset):
             data=data,
             noise_map=noise_map,
             psf=self.psf,
+            use_normalized_psf=self.use_normalized_psf,
             noise_covariance_matrix=self.noise_covariance_matrix,
             over_sampling=self.over_sampling,
             pad_for_convolver=False,
@@ -473,6 +475,7 @@ class Imaging(AbstractDataset):
             data=self.data,
             noise_map=self.noise_map,
             psf=self.psf,
+            use_normalized_psf=self.use_normalized_psf,
             over_sampling=over_sampling,
             pad_for_convolver=False,
             check_noise_map=False,
